@@ -30,7 +30,10 @@ def redrive(src):
             yield e
 
 
-MODELS = {"quick": [], "thorough": []}
+_M = [("Checker", "Checker_%s.cfg" % op, "operational model of check_product_automaton (%s): every reference pair x every "
+       "answer over three state names (one of them not a product state): model OK => criterion" % op)
+      for op in ("union", "intersection", "symmetric_difference")]
+MODELS = {"quick": _M, "thorough": _M}
 RULE = ("23 checker families x seeded exercise instances (small random reference DFAs/NFAs/grammars/regexps); per "
         "instance the library's own answer and 3-6 single mutations of it (flip a final state, retarget a transition, "
         "other initial state, extra state, drop/flip a table cell or row, another phase's grammar, skip a derivation "
